@@ -151,6 +151,7 @@ static void show(DIRFILE *D, const char *root)
     l = strlen(E->field);
     if (E->field[0] == '.' || strchr(E->field, '/')) continue;
     if (l > 2 && E->field[l - 2] == '.' && strchr("rimaz", E->field[l - 1])) continue;
+    if (!strcmp(E->field, "FILEFRAM")) continue; /* names INDEX at Standards Version <= 5 */
     {
       uint16_t v = 0xEEEE;
       size_t nr = gd_getdata64(D, E->field, 12, 0, 0, 1, GD_UINT16, &v);
